@@ -33,6 +33,7 @@ from vc.sqlvc_ext import REq, RLe, RLt  # noqa: E402
 NUM_SIGS = [("Integer", "Integer"), ("Number", "Number"), ("Integer", "Number"), ("Number", "Integer")]
 NAMES = ["a", "b", "c", "d", "e"]
 INDS = ["A", "S", "Q", "M", "W", "D"]
+MAXLEN = 4 if core.os.environ.get("VERIF_TIER") == "thorough" else 3   # longest string operand of the character-vector reading
 
 # registry entries that are not element-wise operators of C01 (decided by other properties)
 OUT_OF_SCOPE = {
@@ -225,17 +226,17 @@ def clauses_for(c: Ctx, tok: str, arity: int, dt: str = "") -> List[Clause]:  # 
                        [AC(o.kind, [o], lambda s: sp_isnull(s[0])) for o in ops])]
     if tok == "length":
         return [Clause("value", "length(a) = number of characters (lengths <= 3), NULL for NULL",
-                       [AC(f"String[{n}]", [c.S(0, n)], lambda s: sp_length(s[0]), "cstr") for n in range(4)])]
+                       [AC(f"String[{n}]", [c.S(0, n)], lambda s: sp_length(s[0]), "cstr") for n in range(MAXLEN + 1)])]
     if tok in ("upper", "lower"):
         return [Clause("value", f"{tok}(a): ASCII letters mapped, everything else unchanged (printable ASCII, lengths <= 3); NULL for "
                        "NULL (non-ASCII letters are not specified here)",
                        [AC(f"String[{n}]", [c.S(0, n, ascii_only=True)], lambda s: sp_case_map(s[0], tok == "upper"), "cstr")
-                        for n in range(4)])]
+                        for n in range(MAXLEN + 1)])]
     if tok in ("trim", "ltrim", "rtrim"):
         le, ri = tok in ("trim", "ltrim"), tok in ("trim", "rtrim")
         return [Clause("value", f"{tok}(a): blanks (U+0020) removed at the {'left' if le else ''}{' and ' if le and ri else ''}"
                        f"{'right' if ri else ''} end, nothing else (lengths <= 3); NULL for NULL",
-                       [AC(f"String[{n}]", [c.S(0, n)], lambda s: sp_trim(s[0], le, ri), "cstr") for n in range(4)])]
+                       [AC(f"String[{n}]", [c.S(0, n)], lambda s: sp_trim(s[0], le, ri), "cstr") for n in range(MAXLEN + 1)])]
     if tok in ("exp", "ln", "sqrt"):
         def f(s: List[SV]) -> Spec:
             x = s[0]
@@ -276,7 +277,7 @@ def clauses_for(c: Ctx, tok: str, arity: int, dt: str = "") -> List[Clause]:  # 
                                                                   lambda s: Spec([], nullprop=nany(*s)))])]
     if tok == "substr":
         cases = []
-        for n in range(4):
+        for n in range(MAXLEN + 1):
             cases.append(AC(f"String[{n}], start and length columns", [c.S(0, n), c.o(1, "Integer"), c.o(2, "Integer")],
                             lambda s: sp_substr(s[0], s[1], s[2]), "cstr"))
             cases.append(AC(f"String[{n}], start column", [c.S(0, n), c.o(1, "Integer")],
@@ -293,10 +294,10 @@ def clauses_for(c: Ctx, tok: str, arity: int, dt: str = "") -> List[Clause]:  # 
                        "are not specified)", cases)]
     if tok == "replace":
         cases = []
-        for n, m, r in itertools.product(range(4), (1, 2), (0, 1)):
+        for n, m, r in itertools.product(range(MAXLEN + 1), (1, 2), (0, 1)):
             cases.append(AC(f"String[{n}], pattern[{m}], replacement[{r}]", [c.S(0, n), c.S(1, m), c.S(2, r)],
                             lambda s: sp_replace(s[0], s[1], s[2]), "cstr"))
-        for n, m in itertools.product(range(4), (1, 2)):
+        for n, m in itertools.product(range(MAXLEN + 1), (1, 2)):
             cases.append(AC(f"String[{n}], pattern[{m}], replacement omitted", [c.S(0, n), c.S(1, m)],
                             lambda s: sp_replace(s[0], s[1], PF.strv([])), "cstr", args=['"a"', '"b"', None]))
         cases.append(AC("pattern is the null constant", [c.S(0, 2)], lambda s: Spec.value(NULL), "cstr", args=['"a"', "NULL", None]))
@@ -305,7 +306,7 @@ def clauses_for(c: Ctx, tok: str, arity: int, dt: str = "") -> List[Clause]:  # 
                        "pattern is not specified)", cases)]
     if tok == "instr":
         cases = []
-        for n, m in itertools.product(range(4), (1, 2)):
+        for n, m in itertools.product(range(MAXLEN + 1), (1, 2)):
             for lab, args in (("defaults", ['"a"', '"b"']), ("omitted", ['"a"', '"b"', None, None]), ("constants 1, 1", ['"a"', '"b"', "1", "1"]),
                               ("null constants", ['"a"', '"b"', "NULL", "NULL"])):
                 cases.append(AC(f"String[{n}], pattern[{m}], start / occurrence {lab}", [c.S(0, n), c.S(1, m)],
